@@ -210,8 +210,12 @@ def main(tier, seed):
         res.disagreements.extend(pair.disagreements[:3]); pair.disagreements = []
         # reader oracle at every operation boundary of writer histories
         hs = [random_history(r, r.choice([5, 9, 14])) for _ in range(25 if tier == "quick" else 500)]
+        # clears over word borders / over already-emptied words of a bitfield page (what a flush persists of them is read by the
+        # independent reader right after the call and after the reopen)
+        import c01
+        hs += [c01.word_history(r) for _ in range(3 if tier == "quick" else 60)] + [wide_clear_history(r) for _ in range(4 if tier == "quick" else 60)]
         for hi, h in enumerate(hs):
-            if hi % 3 == 1:
+            if hi % 3 == 1 and hi < (25 if tier == "quick" else 500):
                 # make_read_only in the middle (it rewrites BOTH header slots), then entries written by the same
                 # instance (clears): they must carry the header bit a JavaScript reader expects
                 pos = r.randrange(1, len(h) + 1)
